@@ -77,4 +77,6 @@ def get_temp_directory_suffix(files: Union[List[Path], List[str]]) -> str:
     @param files: the list of fj-code files.
     @return: the suffix
     """
-    return f'__{"_".join(os.path.basename(str(file)) for file in files)}__temp_directory'
+    # a file-name is limited (255 bytes on most file systems), and the names of many (or long-named) files don't fit in it
+    files_names = "_".join(os.path.basename(str(file)) for file in files)[:100]
+    return f'__{files_names}__temp_directory'
